@@ -208,10 +208,10 @@ def worker(ctx, job):
 def run(ctx):
     njobs = 16
     nshort = ctx.pick(5, 200)
-    nlong = ctx.pick(20, 1500)
+    nlong = ctx.pick(20, 6000)
     jobs = [{"short": list(range(j * nshort, (j + 1) * nshort)), "long": list(range(j * nlong, (j + 1) * nlong)),
-             "nrandom": ctx.pick(40, 120), "budget": ctx.pick(25, 330)} for j in range(njobs)]
-    ctx.shard(jobs, timeout=ctx.pick(60, 400))
+             "nrandom": ctx.pick(40, 120), "budget": ctx.pick(25, 900)} for j in range(njobs)]
+    ctx.shard(jobs, timeout=ctx.pick(60, 1500))
     ctx.floor("split_cases", ctx.pick(35000, 2400000))
     ctx.floor("distinct_nontrivial", ctx.pick(120, 12000))
     ctx.floor("short_streams_exhaustive", ctx.pick(25, 1500))
